@@ -340,6 +340,16 @@ def utf8_encoded(st, t):
 
 
 CHAR_UPPER = z3.Function("Char.upper_id", CHAR, z3.IntSort())
+CHAR_ISASCII = z3.Function("Char.isascii", CHAR, z3.BoolSort())
+
+
+def isascii_of_text(st, t):
+    """`s.isascii()` of a str: every character is ASCII (CPython: all code points < 128; True for '').  Being ASCII
+    is an uninterpreted predicate of the opaque character (nothing else in the model depends on code points)."""
+    n = t.length
+    if isinstance(n, int):
+        return V.both(*[mk_bool(CHAR_ISASCII(t.get(j).e)) for j in range(n)]) if n else True
+    return V.forall(0, n, lambda j: mk_bool(CHAR_ISASCII(t.get(j).e)))
 
 
 def upper_of_char_text(st, t):
